@@ -633,6 +633,9 @@ def alias_of(fn, node, depth=0):
     if not (is_ref or v.get('constq')):
         return s
     ds = assignments_to(fn, s.decl_id)
+    if is_ref:
+        # a reference is bound once, by its declaration: later `ref = x` writes through it and does not re-seat it
+        ds = [d_ for d_ in ds if d_[0].k == 'VarDecl']
     if len(ds) != 1 or ds[0][1] is None:
         return s
     decl, rhs = ds[0]
@@ -645,13 +648,19 @@ def alias_of(fn, node, depth=0):
         return s
     scope = decl.enclosing('ForStmt', 'WhileStmt', 'CXXForRangeStmt', 'DoStmt')
     body = scope.body if scope is not None and getattr(scope, 'body', None) is not None else fn.body
+    suspicious = False
     for vid in vars_in(r):
         vi = s.prog.vars[vid] if vid < len(s.prog.vars) else {}
         if vi.get('kind') not in ('local', 'param'):
             continue
         for (an, _r) in assignments_to(fn, vid):
             if an.k != 'VarDecl' and body.is_ancestor_of(an) and an.k in ('BinaryOperator', 'CompoundAssignOperator', 'UnaryOperator'):
-                return s
+                suspicious = True
+    if suspicious:
+        # something the definition reads is written in the same loop: the alias still holds at this use if no such write lies on a path from
+        # the definition to the use (`w = source(e)` in front of `auto &slot = table[w]`)
+        if fn.cfg is None or fn.cfg.pos_of(s) is None or snapshot_stale(fn, s.decl_id, s) is not None:
+            return s
     return alias_of(fn, r, depth + 1)
 
 
